@@ -893,14 +893,15 @@ class SimulationObject(TreeClass, ABC):
         self,
         other: "SimulationObject",
     ) -> bool:
+        # Two boxes overlap iff their index intervals overlap on every axis (touching counts, so
+        # that neighbours are treated conservatively). Testing only whether an endpoint of ``self``
+        # lies inside ``other`` misses an object contained in ``self`` on all axes.
         for axis in range(3):
             s_start, s_end = self._grid_slice_tuple[axis]
             o_start, o_end = other._grid_slice_tuple[axis]
-            if o_start <= s_start <= o_end:
-                return True
-            if o_start <= s_end <= o_end:
-                return True
-        return False
+            if s_end < o_start or o_end < s_start:
+                return False
+        return True
 
     def __eq__(
         self: Self,
